@@ -50,6 +50,11 @@ def run(ctx):
              "component are refused as schema-resource errors", floor=1)
     run.rule("C12.R7", "no load-phase mutator call on an object shared with "
              "the application schema", floor=8)
+    run.rule("C12.R9", "what a load re-binds on the loader (the private "
+             "schema of a %import and its flag) the top-level load function "
+             "puts back on every exit: the import extends the vocabulary of "
+             "that load only, also for a loader that is used again",
+             floor=2)
     run.rule("C12.R8", "every load-phase lookup in the schema's own tables "
              "(type table, component registry) goes through the loader's "
              "current schema, never through a snapshot taken before a "
@@ -103,10 +108,14 @@ def run(ctx):
         c = m.classes[cq]
         for st, meth in c.fields.get("schema", []):
             writers.add(m.owner(meth).qualname)
-    run.check(writers == {CL + ".__init__", CL + ".importSchemaComponent"},
+    # (the top-level load function may reset the field to the schema the
+    # constructor was given: C12.R9 decides that it is such a reset)
+    run.check({CL + ".__init__", CL + ".importSchemaComponent"} <= writers
+              and writers <= {CL + ".__init__", CL + ".importSchemaComponent",
+                              CL + ".loadResource"},
               "C12.R4", CL, "writers of self.schema",
-              "self.schema is written only by the constructor and by "
-              "importSchemaComponent",
+              "self.schema is written only by the constructor, by "
+              "importSchemaComponent and (as a reset) by the top-level load",
               "self.schema is written by %s" % sorted(writers))
     for q in (LD + ".loadConfig", LD + ".loadConfigFile"):
         f = m.fn(q)
@@ -139,6 +148,7 @@ def run(ctx):
 
     # R8: what an import adds is visible to every lookup of the load
     from rules import stale
+    stale.restore_check(ctx, "C12.R9")
     stale.check(ctx, "C12.R8")
     # ... and the one lookup the option bag makes is made only for a section
     # an override actually addresses (a load with unrelated overrides must
